@@ -3,8 +3,8 @@
 From Coq Require Import List NArith ZArith Bool Sorting.Permutation.
 Import ListNotations.
 Require Import Verif.Lib.Wire Verif.Gen.Facts_C03 Verif.Model.C03 Verif.Gen.Facts_C05 Verif.Model.C05.
-Require Import Verif.Proofs.C05 Verif.Proofs.C05_cfg Verif.Proofs.C05_seq Verif.Proofs.C05_judge.
-Require Verif.Gen.Facts_C18 Verif.Model.C18.
+Require Import Verif.Proofs.C05 Verif.Proofs.C05_cfg Verif.Proofs.C05_seq Verif.Proofs.C05_judge Verif.Proofs.C05_gen.
+Require Verif.Gen.Facts_C18 Verif.Model.C18_base Verif.Model.C18.
 Local Close Scope N_scope.
 Local Open Scope nat_scope.
 
@@ -13,7 +13,7 @@ Local Open Scope nat_scope.
    pipeline is the two fixed outer derivers followed by that order *)
 Theorem C05_secured_outermost :
   exists ds mid,
-    C18.sorted C18.default_derivers = C18.Sorted ds /\
+    C18_base.sorted C18.default_derivers = C18_base.Sorted ds /\
     map fst ds = nm_secured_view :: mid ++ [nm_mapped_view] /\
     ~ In nm_secured_view mid /\
     deriver_names = Facts_C18.dv_outer ++ map fst ds.
@@ -325,3 +325,87 @@ Theorem C05_csrf_after_permission : forall D tb q lookup v c d p,
   else ([Permits p c false], Raise EForbidden).
 Proof. exact csrf_after_permission. Qed.
 Print Assumptions C05_csrf_after_permission.
+
+(* ==== the program REGENERATED from the source on this run (Gen/Facts_C05.v, harness/c05/translate.py) equals the model *)
+Theorem C05_gen_secured_permission_is_model : forall st exception_only perm,
+  gen_secured_permission exception_only perm (rs_defperm st) (rs_policy st) = secured_permission st exception_only perm.
+Proof. exact gen_secured_permission_is_model. Qed.
+Print Assumptions C05_gen_secured_permission_is_model.
+
+Theorem C05_gen_secured_call_is_model : forall tb q lookup p r d t c,
+  run_ws tb q lookup (WSecured p :: r) d t c = gen_secured_call tb p c (run_ws tb q lookup r d t c).
+Proof. exact gen_secured_call_is_model. Qed.
+Print Assumptions C05_gen_secured_call_is_model.
+
+Theorem C05_gen_secured_view_deriver_is_model : forall (V : Type) (f : V -> V) sp eo op dp (dbg : V -> V) v,
+  gen_secured_view_deriver f (fun w => gen_authdebug_view sp false eo op dp w (dbg w)) v = f v.
+Proof. exact @gen_secured_view_deriver_is_model. Qed.
+Print Assumptions C05_gen_secured_view_deriver_is_model.
+
+Theorem C05_gen_find_views_is_model : forall R cls rs cs nm,
+  gen_find_views R rs cs nm None (Some cls) = find_views R cls rs cs nm.
+Proof. exact gen_find_views_is_model. Qed.
+Print Assumptions C05_gen_find_views_is_model.
+
+Theorem C05_gen_call_view_is_model : forall D tb q lookup c find secure i a,
+  gen_call_view (fun cmp => call_component5 D tb q lookup cmp c) (pc_of D) (pr_of D) (run_pr q)
+                (call_pc D tb q lookup c) find secure (Some i) a
+  = call_loop_s D tb q secure lookup (find i) c false.
+Proof. exact gen_call_view_is_model. Qed.
+Print Assumptions C05_gen_call_view_is_model.
+
+(* the whole request path assembled from the regenerated pieces (invoke_request, excview_tween, _error_handler,
+   invoke_exception_view, handle_request's view execution, _call_view, _find_views; keyword defaults from the signatures) *)
+Theorem C05_gen_router_is_model : forall R D tb q, gen_router R D tb q = router_call R D tb q.
+Proof. exact gen_router_is_model. Qed.
+Print Assumptions C05_gen_router_is_model.
+
+Theorem C05_gen_default_exceptionresponse_view : forall (V : Type) (f : V -> V -> V) (c r : V),
+  gen_default_exceptionresponse_view f true c r = c.
+Proof. exact @gen_default_exceptionresponse_view_is_model. Qed.
+Print Assumptions C05_gen_default_exceptionresponse_view.
+
+(* ==== the property, about the regenerated program *)
+Theorem C05_gen_mediation : forall R D tb q i e t c d p,
+  nth_error (fst (gen_router R D tb q)) i = Some e -> (e = Body t c \/ e = Deco t c) ->
+  assocN t D = Some d -> d_perm d = Some p ->
+  exists j, j < i /\ nth_error (fst (gen_router R D tb q)) j = Some (Permits p c true).
+Proof. exact gen_mediation. Qed.
+Print Assumptions C05_gen_mediation.
+
+Theorem C05_gen_refusal_blocks : forall R D tb q j p c,
+  nth_error (fst (gen_router R D tb q)) j = Some (Permits p c false) ->
+  nth_error (fst (gen_router R D tb q)) (S j) = Some (Raised EForbidden) \/
+  (S j = length (fst (gen_router R D tb q)) /\ snd (gen_router R D tb q) = Propagated EForbidden /\
+   exists k e, k < j /\ nth_error (fst (gen_router R D tb q)) k = Some (Raised e)).
+Proof. exact gen_refusal_blocks. Qed.
+Print Assumptions C05_gen_refusal_blocks.
+
+Theorem C05_gen_permits_on_behalf : forall R D tb q p c b,
+  In (Permits p c b) (fst (gen_router R D tb q)) ->
+  exists t d, assocN t D = Some d /\ (d_perm d = Some p \/ exists bh, d_body d = Slash (Some p) bh).
+Proof. exact gen_permits_on_behalf. Qed.
+Print Assumptions C05_gen_permits_on_behalf.
+
+Theorem C05_gen_effective_permission : forall st exception_only perm p,
+  gen_secured_permission exception_only perm (rs_defperm st) (rs_policy st) = Some p <->
+  rs_policy st = true /\ is_npr p = false /\
+  (perm = Some p \/ (perm = None /\ exception_only = false /\ rs_defperm st = Some p)).
+Proof. exact gen_effective_permission. Qed.
+Print Assumptions C05_gen_effective_permission.
+
+Theorem C05_gen_mediation_program : forall irq ier iw batch tb q i e rt c d,
+  let s0 := init_state irq ier iw in
+  let s := commit s0 batch in
+  existsb policy_kept batch = true ->
+  nth_error (fst (gen_router (cs_R s) (cs_D s) tb q)) i = Some e -> (e = Body rt c \/ e = Deco rt c) ->
+  assocN rt (cs_D s) = Some d ->
+  In (rt, d) (cs_D s0) \/
+  exists st eo o b, In st batch /\ directive (cs_rs s0) st = Some (AView o b) /\ rt = rtag (o_tag o) eo /\
+    forall p, match o_perm o with
+              | Some p' => strip_npr (Some p')
+              | None => if eo then None else strip_npr (rs_defperm (cs_rs s))
+              end = Some p ->
+              exists j, j < i /\ nth_error (fst (gen_router (cs_R s) (cs_D s) tb q)) j = Some (Permits p c true).
+Proof. exact gen_mediation_program. Qed.
+Print Assumptions C05_gen_mediation_program.
